@@ -1,5 +1,5 @@
 """C14 — the canonical structure encoding (bencode) is injective, key-order independent, decodable,
-and rejects bools/None/floats.  Model: lean/RedunModel/Model/BStruct.lean."""
+and rejects bools/None/floats.  Model: lean/RedunModel/Model/BStruct.lean (enc, norm, decode)."""
 from core import Raw, sx
 
 ID = "C14"
@@ -19,18 +19,71 @@ THEOREMS = [
     "RedunModel.C14.rejects_float",
     "RedunModel.C14.rejects_in_list",
     "RedunModel.C14.rejects_nonstring_key",
+    # key order
+    "RedunModel.C14.dict_key_order_irrelevant",
+    "RedunModel.C14.dict_key_order_irrelevant_nodup",
+    "RedunModel.C14.dict_key_order_irrelevant_bytes",
+    # sorted normal form
+    "RedunModel.C14.norm_sorted",
+    "RedunModel.C14.wfDict_keys_pairwise",
+    "RedunModel.C14.sorted_dict_unique",
+    "RedunModel.C14.norm_same_finmap",
+    # decoder
+    "RedunModel.C14.dec_enc",
+    "RedunModel.C14.ofB_injective",
+    "RedunModel.C14.dec_left_inverse",
+    "RedunModel.C14.decode_total",
+    "RedunModel.C14.dec_accepts_non_encodings",
 ]
 TRUSTED = [
     "modelled, not verified: Python int->decimal text (str(int)), str.encode() (UTF-8), sorted() on dict items "
-    "(stable total-order sort; code-point order of str keys = byte order of their UTF-8), BytesIO",
+    "(stable total-order sort; code-point order of str keys = byte order of their UTF-8; a str/bytes key mix of two or more "
+    "items always raises TypeError), BytesIO (read/seek/tell; seek(-1, SEEK_CUR) at position 0 stays at 0), CPython int() on a "
+    "bytes-like argument (base 10: ASCII whitespace, one sign, digits with single underscores), Py_ssize_t = 64 bit "
+    "(f.read(n) raises OverflowError for n >= 2**63)",
     "SHA-512/160 collision freedom is outside the claim: the theorems are about the bytes fed to the hash",
 ]
-ASSUMPTIONS = ["values are finite and acyclic; no lone surrogates in str (encode() would raise UnicodeEncodeError)"]
+ASSUMPTIONS = [
+    "values are finite and acyclic; no lone surrogates in str (encode() would raise UnicodeEncodeError)",
+    "values are int/str/bytes/list/tuple/dict; dict keys are str, bytes, or of a type bencode rejects (int, tuple, None): other "
+    "Iterables (sets, generators) and buffer-like hashable keys (memoryview) are outside the statement's quantifier",
+    "ints have at most sys.get_int_max_str_digits() = 4300 decimal digits: beyond that str(int) (bencode) and int(bytes) (bdecode) "
+    "both raise ValueError; the model has no such limit and the generators stay below it",
+    "decoder inputs nest at most ~150 deep (RecursionError of the recursive bdecode cannot be exhibited by the model)",
+    "dec_enc assumes every byte string is shorter than 2**63 bytes (Fits; CPython cannot build a longer one)",
+    "the str-vs-bytes guess of _decode_buffer (valid UTF-8 => str) is not in the model: decoded strings and dict keys are "
+    "compared as bytes (the statement's 'other than by str versus utf-8 bytes')",
+]
 RULE = ("structures generated from one PRNG over int/str/bytes/list/tuple/dict(str or bytes keys) plus a malformed stream "
         "(bool/None/float leaves, int/tuple/mixed keys) and adversarial boundary-shift pairs; every case is encoded by the real "
         "bencode and by the Lean model (byte-exact comparison), decoded back by the real bdecode, and entered into a table "
-        "encoding->canonical form to look for collisions. distinct = distinct canonical forms; non-trivial = container or "
-        "rejected value (a bare int/str is trivial)")
+        "encoding->canonical form to look for collisions. Decoder: every distinct encoding, alone and followed by other bytes, and a "
+        "malformed byte stream (fixed corpus; every string over {0,1,7,space,-,+,_,newline,x} up to length 3 (quick) / 4 (thorough) "
+        "between i and e; mutated encodings: truncated, byte dropped/inserted/replaced, slice duplicated, trailing bytes; length "
+        "prefixes with leading zeros, underscores, 2**63-1, 2**63, 10**k; hand-built dicts with unsorted/duplicate/non-string keys and "
+        "missing values; token soup) go to the real bdecode (on a BytesIO, f.tell() observed) and to the model's decode: value vs error "
+        "class, the decoded structure and the unread byte count must agree. distinct = distinct canonical forms / distinct malformed "
+        "byte strings; non-trivial = container or rejected value (a bare int/str is trivial), malformed input of at least 2 bytes")
+LEVEL_TEXT = ("Lean theorems, all full strength, over ALL structures (any depth, any size; injectivity over all pairs): "
+              "enc_unique_parse (an encoding followed by anything determines structure and rest) with corollaries enc_injective, "
+              "enc_prefix_free, encList_injective, enc_norm_eq_iff; norm_str_bytes / norm_list_tuple (the only identifications); "
+              "rejects_bool / rejects_none / rejects_float / rejects_in_list / rejects_nonstring_key; dict_key_order_irrelevant "
+              "(+ _nodup, _bytes): norm of a dict is invariant under every permutation of its item list, error cases included "
+              "(bytesLt proved a strict total order, insertItem commutes for distinct keys); norm_sorted (every dict inside norm's result "
+              "has strictly increasing keys, wfDict_keys_pairwise) and therefore sorted_dict_unique / norm_same_finmap (Python dicts equal "
+              "as finite maps normalise to the same BDict); decoder: dec_enc (decode (enc v ++ rest) = (v, rest) for EVERY BVal, dicts with "
+              "unsorted or duplicate keys included, because decode returns the item sequence of the stream), ofB_injective, "
+              "dec_left_inverse (decode∘enc is the identity on norm's results, also through the Python-dict view canonD), decode_total (the "
+              "model's fuel always suffices), dec_accepts_non_encodings (closed instances: i-0e, i03e, 'i 1_0 e', 03:abc, lle, d1:ae, unsorted "
+              "keys decode; the property only speaks about decoding encodings). Tie: byte-exact comparison of bencode with enc∘norm, and of "
+              "bdecode with decode (value / error class / unread bytes) on encodings and on a malformed stream; oracle on the real code: no "
+              "collision between different canonical forms, insertion order irrelevant, bdecode(bencode(x)) = x, unencodables rejected.")
+LEVEL_NOTE = ("The model is hand-written. Modelled, not verified: str(int), int(bytes), str.encode, sorted, BytesIO. bdecode's str-vs-bytes "
+              "guess is outside the model (results compared as bytes). Dict results are compared as Python dicts (last binding wins, sorted by "
+              "key bytes = canonD); the model's raw item sequence is only visible through `decraw`. Not exhibited by the model: RecursionError "
+              "on deep nesting, the 4300-digit limit of int()/str(), MemoryError, non-seekable streams (the peek branch of bdecode), text (str) "
+              "input to bdecode. hash_struct = sha512(bencode(x))[:40]: the hash itself is outside the claim.")
+TECHNIQUE = "Lean 4 proofs (unique parsing, permutation invariance, decode∘encode) on a model of bencode/bdecode + differential testing on structures and malformed bytes"
 
 
 # ------------------------------------------------------------------ generator
@@ -147,8 +200,9 @@ def show_dec(v):
     if isinstance(v, list):
         return "(L" + "".join(" " + show_dec(x) for x in v) + ")"
     if isinstance(v, dict):
-        items = sorted((k.encode() if isinstance(k, str) else k, x) for k, x in
-                       ((k, x) for k, x in v.items()))
+        if not all(isinstance(k, (str, bytes)) for k in v):
+            raise TypeError("non-string key from bdecode")
+        items = sorted(((k.encode() if isinstance(k, str) else k, x) for k, x in v.items()), key=lambda kv: kv[0])
         return "(D" + "".join(" (b" + k.hex() + " " + show_dec(x) + ")" for k, x in items) + ")"
     raise TypeError(type(v))
 
@@ -161,7 +215,11 @@ def real_decode(bdecode, data):
         r = bdecode(f)
     except (TypeError, ValueError, AssertionError, OverflowError) as e:
         return "!" + type(e).__name__
-    return "ok %s %d" % (show_dec(r), len(data) - f.tell())
+    try:
+        shown = show_dec(r)
+    except TypeError:      # a result bdecode cannot produce on the unchanged tree (e.g. a non-string dict key)
+        shown = "<unrenderable %s>" % repr(r)[:80].replace("\n", " ")
+    return "ok %s %d" % (shown, len(data) - f.tell())
 
 
 # ------------------------------------------------------------------ malformed byte streams for bdecode
